@@ -264,9 +264,29 @@ impl Transaction {
 		} = opts;
 
 		// Get the current visible sequence number as our start point.
-		let start_seq_num = core.seq_num();
+		let mut start_seq_num = core.seq_num();
 		#[cfg(feature = "verif")]
 		crate::verif::point("txn.begin.after_load");
+
+		// The horizon must be registered with the snapshot tracker before any
+		// commit newer than it becomes visible: a compaction that captures the
+		// snapshot list in between would not know about this reader and could
+		// discard the versions it reads. Register, then make sure the visible
+		// sequence number has not moved since it was loaded; otherwise adopt the
+		// newer horizon and try again.
+		let mut snapshot = None;
+		if !mode.is_write_only() {
+			loop {
+				let candidate = Snapshot::new(Arc::clone(&core), start_seq_num);
+				let now = core.seq_num();
+				if now == start_seq_num {
+					snapshot = Some(candidate);
+					break;
+				}
+				drop(candidate);
+				start_seq_num = now;
+			}
+		}
 
 		// Register this txn's start_seq with the GC watermark tracker.
 		// Both read-write and write-only txns register here (write-only txns
@@ -276,10 +296,6 @@ impl Transaction {
 		// cause GC to advance past our start_seq.
 		let txn_guard = Some(core.active_txn_tracker.register(start_seq_num));
 
-		let mut snapshot = None;
-		if !mode.is_write_only() {
-			snapshot = Some(Snapshot::new(Arc::clone(&core), start_seq_num));
-		}
 		#[cfg(feature = "verif")]
 		crate::verif::point("txn.begin.after_register");
 
